@@ -218,6 +218,40 @@ def rule_header(ctx, f):
     ctx.floor("C10-G1", n, 1, "Storage::empty")
 
 
+
+def rule_size_exact(ctx, f, rid):
+    """shared by C10 (valid structure) and C09 (a saved file can be reloaded and saved again)"""
+    # ... and what is finally written is exact: the cross-reference stream is the last object, /Size is its number plus one, stored in the trailer
+    # and in the dictionary that is written.  An estimate that is too large leaves an undefined slot below /Size in the table of whoever reads the
+    # file back, and the writer refuses such a table: a document without /Info could be saved once, but not again after a reload.
+    for b in f.bodies.values():
+        if not (b["id"].endswith("::save") and (b.get("impl") or {}).get("self", "").startswith("file::Storage<")):
+            continue
+        cfg = CFG(b)
+        fl = Flow(b)
+        proms = [bi for bi, t in F.calls(b) if last_seg(F.callee_name(t)) == "promise"]
+        exact = []
+        for i, j, st in F.stmts(b):
+            if st[0] == "assign" and len(st[1]) > 1 and st[1][-1][0] == "field" and st[1][-1][2] == "size":
+                src = F.op_place(st[2][1]) if st[2][0] == "use" else (F.op_place(st[2][2]) if st[2][0] == "cast" else None)
+                ats = fl.origins(src[0], passthrough=("get_inner", "get_ref", "into", "from", "try_into", "unwrap")) if src else []
+                from_prom = any(a[0] == "call" and last_seg(a[1]) == "promise" for a in ats)
+                plus1 = any(a[0] == "binop" and a[1].startswith("Add") and 1 in (F.const_int(a[3][2]), F.const_int(a[3][3])) for a in ats)
+                if from_prom and plus1 and any(cfg.dominates(p0, i) for p0 in proms):
+                    exact.append(i)
+        ins = [bi for bi, t in F.calls(b) if F.callee_name(t).startswith("primitive::Dictionary::insert") and any(F.const_str(a) == "Size" for a in t["args"])]
+        if not ins:
+            flx = Flow(b)
+            for bi, t in F.calls(b):
+                if F.callee_name(t).startswith("primitive::Dictionary::insert") and len(t["args"]) > 1:
+                    l = F.op_local(t["args"][1])
+                    if l is not None and any(a[0] == "const" and isinstance(a[1], dict) and a[1].get("str") == "Size" for a in flx.origins(l)):
+                        ins.append(bi)
+        ok = bool(exact) and any(cfg.dominates(e, x) for e in exact for x in ins)
+        ctx.check(ok, rid, b["id"] + "#size-exact", "/Size is not set to the number of the cross-reference stream plus one after that number is known (and put into the "
+                  "trailer dictionary that is written): with no /Info object it is one too large, the reloaded table has an undefined slot, and the next save fails "
+                  "with `invalid xref entry`", b["span"], detail="trailer.size = xref id + 1; trailer_dict[Size] = trailer.size")
+
 def rule_size(ctx, f):
     ctx.rule("C10-G2", "/Size written by save exceeds every object number save can still allocate: the constant added to the number of known objects is at least "
              "the number of allocation sites that follow (the xref-stream promise, and the trailer writer if it can create an object)")
@@ -256,6 +290,8 @@ def rule_size(ctx, f):
                   "the highest object number reaches /Size, which makes the file invalid for other readers" % (c, need, len(proms), writers), b["span"],
                   detail="/Size = refs.len() + %s >= %d" % (c, need))
     ctx.floor("C10-G2", n, 1, "assignment of trailer.size in Storage::save")
+    rule_size_exact(ctx, f, "C10-G2")
+
 
 
 def rule_order(ctx, f):
